@@ -1096,9 +1096,18 @@ class SymmetryAnalyzer(object):
             "identity": True,
         }
         normalizers.append(identity)
-        normalizers.extend(
-            CHIRALITY_PRESERVING_EUCLIDEAN_NORMALIZERS.get(space_group, [])
-        )
+        candidates = CHIRALITY_PRESERVING_EUCLIDEAN_NORMALIZERS.get(space_group, [])
+
+        # An improper transformation turns a chiral structure into its mirror
+        # image. Such transformations can only be used when the space group
+        # itself contains improper operations.
+        if self.get_is_chiral():
+            candidates = [
+                x
+                for x in candidates
+                if np.linalg.det(x["transformation"][0:3, 0:3]) > 0
+            ]
+        normalizers.extend(candidates)
 
         # If no normalizers found for this space group, return the same system
         if len(normalizers) == 1:
